@@ -13,7 +13,10 @@ namespace gen {
 using namespace ops;
 static const uint32_t F_LARGE = 1, F_HARD = 2, F_FULL = 4, F_JIT = 8, F_SECURE = 16, F_SSSE3 = 32, F_AVX2 = 64, F_V2 = 128;
 
-static const uint32_t KEY_LENS[] = {12, 0, 200, 60, 61, 1, 32, 7};
+// key pool: equal lengths with different content, keys that differ in a single (first / last) byte, an empty key,
+// a key longer than std::string's SSO buffer; index 6 is the 32-byte operand of the commitment op
+struct KeySpec { uint32_t len; uint64_t seed; uint32_t tweak; };
+static const KeySpec KEY_POOL[] = {{12, 1000, 0}, {12, 1001, 0}, {200, 1002, 0}, {12, 1000, 1}, {200, 1002, 2}, {0, 1005, 0}, {32, 1006, 0}, {61, 1007, 0}};
 static const uint32_t INPUT_LENS[] = {76, 0, 1, 127, 128, 129, 1024, 33, 64, 200};
 
 // ------------------------------------------------------------------ builder with a mirror of the contract model
@@ -33,9 +36,9 @@ struct Builder {
 	Builder(Context &g, uint64_t seed, const char *stream) : gc(g), rng(rt::substream(seed, stream)) {
 		plan.property = g.property; plan.seed = seed;
 		rt::Rng hr = rt::substream(seed, "heap"); plan.heap_seed = hr.next() | 1;
-		nkeys = g.small ? 7 : 3; ninputs = 8;
-		for (int i = 0; i < nkeys; ++i) plan.keys.push_back(Blob{KEY_LENS[i % 8], (uint64_t)1000 + i});
-		for (int i = 0; i < ninputs; ++i) plan.inputs.push_back(Blob{INPUT_LENS[i % 10], (uint64_t)2000 + i});
+		nkeys = g.small ? 8 : 4; ninputs = 8;
+		for (int i = 0; i < nkeys; ++i) plan.keys.push_back(Blob(KEY_POOL[i % 8].len, KEY_POOL[i % 8].seed, KEY_POOL[i % 8].tweak));
+		for (int i = 0; i < ninputs; ++i) plan.inputs.push_back(Blob(INPUT_LENS[i % 10], (uint64_t)2000 + i));
 	}
 	Op &emit(int kind) { Op o; o.kind = kind; o.phase = phase; o.task = task; plan.ops.push_back(o); return plan.ops.back(); }
 	int rnd_heap() { return (int)rng.below(8); }
@@ -125,7 +128,7 @@ static void add_unique(std::vector<uint32_t> &v, uint32_t f) { if (std::find(v.b
 
 static int dry_requests(Context &gc, int kind, uint32_t flags) {
 	// run the creating call once without faults and count its allocation requests
-	Plan p; p.property = "dry"; p.keys.push_back(Blob{12, 1000}); p.inputs.push_back(Blob{76, 2000});
+	Plan p; p.property = "dry"; p.keys.push_back(Blob(12, 1000)); p.inputs.push_back(Blob(76, 2000));
 	auto emit = [&](int k) -> Op & { Op o; o.kind = k; p.ops.push_back(o); return p.ops.back(); };
 	int target = -1;
 	if (kind == ALLOC_CACHE) { Op &o = emit(ALLOC_CACHE); o.c = 0; o.flags = flags; target = 0; }
